@@ -123,3 +123,12 @@ Example C13_source_example :
   /\ ImpGen.imp_sequtil_DNAFrom2Bit [] [27; 192] = GoSem.Ret (bs "ACGTTAAA")
   /\ ImpProofs.all_bytes (bs "acGTt").
 Proof. vm_compute. repeat split; repeat constructor. Qed.
+
+(* The tables behind Ntoi, the complement and DNAFrom2Bit that the model uses (read out of the
+   running implementation by gen-tables) are the values the two init functions of sequtil.go
+   compute, as translated from the source. *)
+Theorem C13_tables_are_source :
+  ImpGen.imp_sequtil_init_sequtil_0 = GoSem.Ret (Bio.Model.GoGlobals.g_sequtil_ntoi, Bio.Model.GoGlobals.g_sequtil_complementBytes)
+  /\ ImpGen.imp_sequtil_init_sequtil_1 = GoSem.Ret Bio.Model.GoGlobals.g_sequtil_dnaFrom2bit.
+Proof. exact ImpProofs.imp_init_tables. Qed.
+Print Assumptions C13_tables_are_source.
